@@ -589,6 +589,80 @@ struct Act
   }
 };
 
+/// scaled action s * (g * v): argument mix (group, vector, scalar)
+struct SAct
+{
+  static constexpr const char * name = "sact";
+  template<class...>
+  static int vx(int)
+  {
+    return 3;
+  }
+  template<class G, class V>
+  __attribute__((noinline)) auto operator()(const G & g, const V & v, const double & s) const
+  {
+    constexpr int NP = np_of<G>();
+    return Eigen::Matrix<double, NP, 1>(s * (g * v.template head<NP>()));
+  }
+  template<class G, class V>
+  static bool ref(DM & J, Hes & H, const G & g, const V & v, const double & s)
+  {
+    DM J0;
+    Hes H0;
+    Act::ref(J0, H0, g, v);
+    const int ny = J0.r, n0 = J0.c;
+    const auto y = ref::mul(LGref<G>::M(g), homog<G>(flat(v)));
+    J = DM(ny, n0 + 1);
+    H = Hes(n0 + 1, ny);
+    for (int i = 0; i < ny; ++i) {
+      J(i, n0) = y(i, 0);
+      for (int c0 = 0; c0 < n0; ++c0) {
+        J(i, c0)     = (L)s * J0(i, c0);
+        H(c0, i, n0) = J0(i, c0);
+        H(n0, i, c0) = J0(i, c0);
+        for (int c1 = 0; c1 < n0; ++c1) H(c0, i, c1) = (L)s * H0(c0, i, c1);
+      }
+    }
+    return true;
+  }
+};
+/// s * log(g): argument mix (group, scalar)
+struct SLog
+{
+  static constexpr const char * name = "slog";
+  template<class...>
+  static int vx(int)
+  {
+    return 3;
+  }
+  template<class G>
+  __attribute__((noinline)) auto operator()(const G & g, const double & s) const
+  {
+    return Eigen::Matrix<double, G::Dof, 1>(s * sm::log(g));
+  }
+  template<class G>
+  static bool ref(DM & J, Hes & H, const G & g, const double & s)
+  {
+    DM J0;
+    Hes H0;
+    std::vector<L> a;
+    if (!LG<G>::logv(g, a) || !Log::ref(J0, H0, g)) return false;
+    const int D = J0.r;
+    J           = DM(D, D + 1);
+    H           = Hes(D + 1, D);
+    for (int i = 0; i < D; ++i) {
+      J(i, D) = a[size_t(i)];
+      for (int j = 0; j < D; ++j) {
+        J(i, j)    = (L)s * J0(i, j);
+        H(j, i, D) = J0(i, j);
+        H(D, i, j) = J0(i, j);
+        for (int k = 0; k < D; ++k) H(j, i, k) = (L)s * H0(j, i, k);
+      }
+    }
+    return true;
+  }
+};
+
 /// exp(a) * g:  J_a = Ad(g^-1) dr_exp(a),  J_g = I
 struct ExpMul
 {
